@@ -85,7 +85,7 @@ def _run(cfg):
     n, T = cfg["n"], cfg.get("T", cfg["n"])
     prm = dict(cfg.get("prm", {}))
     nu, rho = prm.get("nu", 1), prm.get("rho", 0.9)
-    nurho = [K.fxr(K.D(nu) * K.dpow(rho, h), S) for h in range(80)]
+    nurho = [K.fxr(K.D(nu) * K.dpow(rho, h), S) for h in range(400)]
     P = {"kind": cfg["kind"], "K": cfg["K"], "D": D, "metric": "rank", "arity": A.arity(cfg["kind"], cfg["K"], D), "algo": "Zooming", "S": S, "RU": RU, "nurho": nurho, "band": cfg.get("band", 6)}
     algo = A.build("Zooming", part, dom, n, prm)
     rec = R.SessionRec(algo, P, tid=cfg["id"], call_timeout=cfg.get("timeout", 30))
